@@ -200,24 +200,35 @@ def deleteGenerator (d : T2) (key : Str × Str) : T2 × Option Exc :=
 
 def isTough2Type (t : Str) : Bool := allowed.contains t || keepPrefix.isPrefixOf t
 
-/-- `list.remove(gen)`: first element that *is* the object -/
-def removeObj (l : List Gener) (gid : Nat) : List Gener :=
-  match l.findIdx? (·.id == gid) with
-  | some i => l.eraseIdx i
-  | none => l
+/-- `list.remove(gen)`: removes the first element that *is* the object (nothing if absent:
+    the caller only removes objects it has just found in the list) -/
+def removeObj (l : List Gener) (gid : Nat) : List Gener := l.eraseP (·.id == gid)
+
+/-- first loop of the generator conversion: `if gen.type in convert: gen.type = convert[gen.type]` -/
+def convGen (g : Gener) : Gener :=
+  match convert.lookup g.type with
+  | some t => { g with type := t }
+  | Option.none => g
+
+/-- `elif not ((gen.type in allowed) or gen.type.startswith('COM')): delgens.append(gen)` -/
+def toDelete (g : Gener) : Bool := (convert.lookup g.type).isNone && !isTough2Type g.type
+
+/-- second loop, lookup part: `if self.generator.get((gen.block, gen.name)) is gen: del self.generator[...]` -/
+def dictStep (dc : List ((Str × Str) × Nat)) (g : Gener) : List ((Str × Str) × Nat) :=
+  if dc.lookup (g.block, g.name) == some g.id then dc.filter (·.1 != (g.block, g.name)) else dc
+
+/-- the generator list after `convert_AUTOUGH2_generators_to_TOUGH2`: first loop converts in place and
+    collects the objects to delete, second loop removes each of them -/
+def convGensList (gens : List Gener) : List Gener :=
+  (gens.filter toDelete).foldl (fun l g => removeObj l g.id) (gens.map convGen)
+
+/-- the lookup after `convert_AUTOUGH2_generators_to_TOUGH2` -/
+def convDict (gens : List Gener) (dict : List ((Str × Str) × Nat)) : List ((Str × Str) × Nat) :=
+  (gens.filter toDelete).foldl dictStep dict
 
 /-- `convert_AUTOUGH2_generators_to_TOUGH2` -/
 def convertGenerators (d : T2) : T2 :=
-  -- first loop: convert in place, collect the objects to delete
-  let gens1 := d.gens.map (fun g => match convert.lookup g.type with
-                                    | some t => { g with type := t }
-                                    | none => g)
-  let delgens := d.gens.filter (fun g => (convert.lookup g.type).isNone && !isTough2Type g.type)
-  -- second loop
-  let gens2 := delgens.foldl (fun l g => removeObj l g.id) gens1
-  let dict2 := delgens.foldl (fun dc g => if dc.lookup (g.block, g.name) == some g.id
-                                          then dc.filter (·.1 != (g.block, g.name)) else dc) d.gendict
-  { d with gens := gens2, gendict := dict2 }
+  { d with gens := convGensList d.gens, gendict := convDict d.gens d.gendict }
 
 /-! ### parameters -/
 
@@ -230,24 +241,27 @@ def setIf (opt : List Int) (i : Nat) (p : Int → Bool) (v : Int) : List Int :=
 
 def optAt (opt : List Int) (i : Nat) : Int := opt.getD i 0
 
-/-- the MOP part of `convert_AUTOUGH2_parameters_to_TOUGH2`: new option vector and the number of
-    conductivity rescalings; `sim` is `self.simulator` at the time of the call -/
-def mopA2T (mp : Bool) (solverType : Int) (sim : Str) (opt : List Int) : List Int × Nat :=
-  let k10 := if optAt opt 10 == 2 then 1 else 0
+/-- how many times `convert_mulkom_heat_conductivity` runs: once for MOP(10)=2, once more for
+    MOP(23)>0 when the simulator string starts with AUTOUGH2 (but not AUTOUGH2.2) or MULKOM and
+    MOP(23) is in [0, 1]; `sim` is `self.simulator` at the time of the call -/
+def condCount (sim : Str) (m10 m23 : Int) : Nat :=
+  let k10 := if m10 == 2 then 1 else 0
+  let isat2 := AUTOUGH2.isPrefixOf sim && !(AUTOUGH2 ++ ['.', '2']).isPrefixOf sim
+  let ismulkom := ['M','U','L','K','O','M'].isPrefixOf sim
+  let k23 := if m23 > 0 && (isat2 || ismulkom) && (m23 == 0 || m23 == 1) then 1 else 0
+  k10 + k23
+
+/-- the MOP part of `convert_AUTOUGH2_parameters_to_TOUGH2`: the new option vector -/
+def mopA2T (mp : Bool) (solverType : Int) (opt : List Int) : List Int :=
   let o1 := setIf opt 10 (· == 2) 0
   let o2 := setIf o1 12 (· == 2) 0
   let o3 := o2.modify 21 (fun _ => solverType)
   let o4 := setIf o3 22 (· > 0) 0
-  let isat2 := AUTOUGH2.isPrefixOf sim && !(AUTOUGH2 ++ ['.', '2']).isPrefixOf sim
-  let ismulkom := ['M','U','L','K','O','M'].isPrefixOf sim
-  let m23 := optAt opt 23
-  let k23 := if m23 > 0 && (isat2 || ismulkom) && (m23 == 0 || m23 == 1) then 1 else 0
   let o5 := setIf o4 23 (· > 0) 0
   let o6 := setIf o5 24 (· > 0) 0
-  let o7 := if mp then
-              (setIf (setIf (setIf o6 14 (· > 0) 0) 17 (· > 0) 0) 20 (· > 0) 0).modify 21 (fun _ => 0)
-            else o6
-  (o7, k10 + k23)
+  if mp then
+    (setIf (setIf (setIf o6 14 (· > 0) 0) 17 (· > 0) 0) 20 (· > 0) 0).modify 21 (fun _ => 0)
+  else o6
 
 /-- `if self.lineq: (4 if self.lineq['type'] <= 1 else 5) else: 4` -/
 def solverTypeOfLineq (lineq : Dict) : Except Exc Int :=
@@ -258,17 +272,19 @@ def solverTypeOfLineq (lineq : Dict) : Except Exc Int :=
     | some (.num q) => .ok (if q ≤ 1 then 4 else 5)
     | some _ => .error .typeError               -- None <= 1, 'x' <= 1
 
+/-- `if self.multi: (if 'eos' in self.multi: del self.multi['eos']); self.multi['num_inc'] = None` -/
+def multiA2T (m : Dict) : Dict :=
+  if m.isEmpty then m else (if m.has kEos then m.del kEos else m).set kNumInc .none
+
 /-- `convert_AUTOUGH2_parameters_to_TOUGH2` -/
 def convParamsA2T (mp : Bool) (d : T2) : T2 × Option Exc :=
-  let multi1 := if d.multi.isEmpty then d.multi
-                else (if d.multi.has kEos then d.multi.del kEos else d.multi).set kNumInc .none
-  let d1 := { d with multi := multi1 }
+  let d1 := { d with multi := multiA2T d.multi }
   match solverTypeOfLineq d1.lineq with
   | .error e => (d1, some e)
   | .ok st =>
     let d2 := deleteSection { d1 with lineq := [] } LINEQ
-    let (opt, k) := mopA2T mp st d2.simulator d2.option
-    ({ d2 with option := opt, rocks := Nat.repeat scaleRocks k d2.rocks }, none)
+    let k := condCount d2.simulator (optAt d2.option 10) (optAt d2.option 23)
+    ({ d2 with option := mopA2T mp st d2.option, rocks := Nat.repeat scaleRocks k d2.rocks }, none)
 
 /-- the MOP part of `convert_TOUGH2_parameters_to_AUTOUGH2` -/
 def mopT2A (mp : Bool) (opt : List Int) : List Int :=
@@ -300,9 +316,12 @@ def newLineq (ty : Int) : Dict :=
   | [] => []
   | k :: ks => (k, .int ty) :: ks.map (fun k => (k, PyV.none))
 
+/-- `if self.multi: self.multi['num_inc'] = None` -/
+def multiNumInc (m : Dict) : Dict := if m.isEmpty then m else m.set kNumInc .none
+
 /-- `convert_TOUGH2_parameters_to_AUTOUGH2` -/
 def convParamsT2A (mp : Bool) (d : T2) : T2 × Option Exc :=
-  let d1 := { d with multi := if d.multi.isEmpty then d.multi else d.multi.set kNumInc .none }
+  let d1 := { d with multi := multiNumInc d.multi }
   match lineqTypeOf (solverTypeT2A mp d1.solver d1.option) with
   | .error e => (d1, some e)
   | .ok ty =>
@@ -353,11 +372,14 @@ def autough2Filename (f : Str) : Str :=
   else if ['.','d','a','t'].isSuffixOf (lower f) then f
   else if isUpperChar (f.headD ' ') then f ++ ['.','D','A','T'] else f ++ ['.','d','a','t']
 
+/-- `if self.multi: self.multi['eos'] = eos` -/
+def multiSetEos (eos : Str) (m : Dict) : Dict := if m.isEmpty then m else m.set kEos (.str eos)
+
 /-- `convert_to_AUTOUGH2(warn, MP, simulator, eos)` -/
 def convertToAutough2 (mp : Bool) (simulator eos : Str) (d : T2) : T2 × Option Exc :=
   let d0 := { d with filename := autough2Filename d.filename, simulator := ljust simulator 10 ++ eos }
   let d1 := insertSection d0 SIMUL
-  let d2 := { d1 with multi := if d1.multi.isEmpty then d1.multi else d1.multi.set kEos (.str eos) }
+  let d2 := { d1 with multi := multiSetEos eos d1.multi }
   match convParamsT2A mp d2 with
   | (d3, some e) => (d3, some e)
   | (d3, Option.none) => (historyToShort d3, none)
